@@ -47,16 +47,37 @@ Proof.
 Qed.
 Print Assumptions C01_refuted_output_dirs.
 
+(* Third, independent witness (no directory, no output_dirs): use has tools = [gen] and writes the NAMES of the tool's
+   outputs; gen's output is renamed gen.out -> gen2.out with identical content.  sourceHash writes only the content hash
+   of a tool output (no path) and the rule hash of use names the label of gen, not its outs: use is skipped as up to
+   date and keeps "gen.out", a clean build writes "gen2.out" (finding tool-output-renamed-same-content-user-not-rebuilt,
+   reproduced on the real plz by the C01 harness). *)
+Theorem C01_refuted_tools : ~ C01_statement.
+Proof.
+  intros H. specialize (H [HBuild false tw_r1 [s "//p:use"]] tw_r2 [s "//p:use"]).
+  assert (Hwf : wf_history ([HBuild false tw_r1 [s "//p:use"]] ++ [HBuild false tw_r2 [s "//p:use"]])).
+  { split; [vm_compute; reflexivity|].
+    intros t t' [<-|[<-|[<-|[<-|[]]]]] [<-|[<-|[<-|[<-|[]]]]] E; try reflexivity; vm_compute in E; discriminate E. }
+  destruct (H Hwf eq_refl) as [_ Ho].
+  specialize (Ho tw_use).
+  assert (Hin : In tw_use (r_targets (restrict tw_r2 [s "//p:use"]))) by (vm_compute; right; left; reflexivity).
+  assert (Hnf : ~ In (t_label tw_use) (rn_failed (plz_build false tw_r2 [s "//p:use"] empty_store))) by (vm_compute; tauto).
+  destruct (Ho Hin Hnf) as [Ho1 _]. vm_compute in Ho1. discriminate Ho1.
+Qed.
+Print Assumptions C01_refuted_tools.
+
 (* Partial 1 (executable classifiers): histories in which no action outputs a directory (defect_class), no filegroup
    links a source DIRECTORY (fg_dir_free: the same defect - the path hash of a directory ignores entry names - reaches
    filegroups of directories; filegroups of directories are inside C01_partial_path_inj and C03_full), no target of a
-   request uses tools (tool_free, part of step_wf; tools are covered by C03_full) and no
+   request uses tools (executable classifier tool_free_history: C01_refuted_tools is about them; the no-op and cut-off
+   theorems of C03_full cover tools) and no
    build rebuilt a target with output_dirs after the post-build check (quiet_history: Engine.stale_flow evaluated
    along the history; trivially true without such targets - earlier builds of the history may even have used the
    cache).  The conclusion covers the discovered outputs of output_dirs targets (all_outs_of). *)
 Theorem C01_partial :
   forall (h : list hstep) (r : repo) (req : list str),
     wf_history (h ++ [HBuild false r req]) ->
+    tool_free_history (h ++ [HBuild false r req]) = true ->
     (forall t, In t (history_targets (h ++ [HBuild false r req])) -> defect_class t = None) ->
     fg_dir_free (h ++ [HBuild false r req]) = true ->
     quiet_history (h ++ [HBuild false r req]) empty_store = true ->
@@ -81,6 +102,7 @@ Theorem C01_partial_path_inj :
     (forall t ins news, U t -> Forall good (map snd ins) -> result t ins = Some news -> Forall good (map snd news)) ->
     forall h r req,
       forallb step_wf (h ++ [HBuild false r req]) = true ->
+      tool_free_history (h ++ [HBuild false r req]) = true ->
       (forall t, In t (history_targets (h ++ [HBuild false r req])) -> U t) ->
       (forall n, In n (history_fg_srcs (h ++ [HBuild false r req])) -> good n) ->
       quiet_history (h ++ [HBuild false r req]) empty_store = true ->
@@ -89,7 +111,10 @@ Theorem C01_partial_path_inj :
       rn_failed incr = rn_failed clean
       /\ forall t, In t (r_targets (restrict r req)) -> ~ In (t_label t) (rn_failed clean) ->
          outs_of (rn_st incr) t = outs_of (rn_st clean) t /\ all_outs_of (rn_st incr) t = all_outs_of (rn_st clean) t.
-Proof. intros U good H1 H2 H3 H4. exact (incremental_is_clean U good H1 H2 H3 H4 false). Qed.
+Proof.
+  intros U good H1 H2 H3 H4 h r req Hwf Htf.
+  exact (incremental_is_clean U good H1 H2 H3 H4 false h r req (wf_t_of _ Hwf Htf)).
+Qed.
 Print Assumptions C01_partial_path_inj.
 
 (* Non-vacuity: a three-step history (build; edit a source and add a dependent target; rm -rf plz-out is
@@ -103,6 +128,7 @@ Example C01_nonvacuous :
   wf_history ([HBuild false nv_r1 [s "//p:b"]] ++ [HBuild false nv_r2 [s "//p:b"]])
   /\ (forall t, In t (history_targets ([HBuild false nv_r1 [s "//p:b"]] ++ [HBuild false nv_r2 [s "//p:b"]])) -> defect_class t = None)
   /\ fg_dir_free ([HBuild false nv_r1 [s "//p:b"]] ++ [HBuild false nv_r2 [s "//p:b"]]) = true
+  /\ tool_free_history ([HBuild false nv_r1 [s "//p:b"]] ++ [HBuild false nv_r2 [s "//p:b"]]) = true
   /\ quiet_history ([HBuild false nv_r1 [s "//p:b"]] ++ [HBuild false nv_r2 [s "//p:b"]]) empty_store = true
   /\ rn_log (plz_build false nv_r2 [s "//p:b"] (run_history [HBuild false nv_r1 [s "//p:b"]] empty_store)) = [s "//p:b"]
   /\ rn_log (plz_build false nv_r2 [s "//p:b"] empty_store) = [s "//p:b"; s "//p:a"]
@@ -128,6 +154,7 @@ Example C01_nonvacuous_output_dirs :
   wf_history (nvo_h ++ [HBuild false nvo_r3 [s "//p:t"]])
   /\ (forall t, In t (history_targets (nvo_h ++ [HBuild false nvo_r3 [s "//p:t"]])) -> defect_class t = None)
   /\ fg_dir_free (nvo_h ++ [HBuild false nvo_r3 [s "//p:t"]]) = true
+  /\ tool_free_history (nvo_h ++ [HBuild false nvo_r3 [s "//p:t"]]) = true
   /\ quiet_history (nvo_h ++ [HBuild false nvo_r3 [s "//p:t"]]) empty_store = true
   /\ rn_log (plz_build false nvo_r3 [s "//p:t"] (run_history nvo_h empty_store)) = []
   /\ all_outs_of (rn_st (plz_build false nvo_r3 [s "//p:t"] (run_history nvo_h empty_store))) (nvo_t [s "a.txt"; s "b.txt"] (s "k2"))
